@@ -171,7 +171,7 @@ func (c *CollectionPage) Count() uint {
 // Append adds an element to a CollectionPage
 func (c *CollectionPage) Append(it ...Item) error {
 	for _, ob := range it {
-		if c.Items.Contains(ob) {
+		if IsNil(ob) || c.Items.Contains(ob) {
 			continue
 		}
 		c.Items = append(c.Items, ob)
